@@ -101,7 +101,8 @@ def gen_sdl(seed, idx):
     mname = "RootM" if renamed else ("Subscription" if crossed
                                      else "Mutation")
     has_mut = crossed or r.random() < 0.5
-    out.append('%sdirective @tag(name: String = "t", n: Int) on OBJECT | '
+    out.append('%sdirective @tag(name: String = "t", n: Int, shade: Color = RED, '
+               'at: Pt) on OBJECT | '
                "FIELD_DEFINITION | ARGUMENT_DEFINITION | ENUM_VALUE | "
                "INPUT_FIELD_DEFINITION | INTERFACE | UNION | ENUM | SCALAR | "
                "INPUT_OBJECT | SCHEMA" % _desc(r))
